@@ -4,6 +4,7 @@ import Bip39V.Model.Check
 import Bip39V.Model.Reader
 import Bip39V.Model.Seed
 import Bip39V.Model.Stringer
+import Bip39V.Model.Tool
 import Bip39V.Spec.Bip39
 import Bip39V.Crypto.Sha
 /-! `bip39model`: one operation per input line, one answer per output line — the executable
@@ -125,6 +126,26 @@ def answer (line : String) : String :=
         | none => "M -\tS none"
         | some e => s!"M -\tS ok {hexOf e}"
     | _, _ => "bad-op"
+  | ["render", hs, hv] =>     -- the generator: file rendered for fetched text `hs` and variable `hv`; expected list
+    match strOfHex hs, strOfHex hv with
+    | some src, some var =>
+      let want := (splitOn 10 src).filter (· ≠ [])
+      let wantS := if want.isEmpty then "." else String.intercalate "," (want.map hexOfStr)
+      match Model.Tool.render src var with
+      | none => s!"M none\tS ok {hexOfStr var} {wantS}"
+      | some f =>
+        let back := match Model.Tool.parseFile f with
+          | none => "unparsed"
+          | some (v, ws) => hexOfStr v ++ " " ++ (if ws.isEmpty then "." else String.intercalate "," (ws.map hexOfStr))
+        s!"M ok {hexOfStr f} back={back}\tS ok {hexOfStr var} {wantS}"
+    | _, _ => "bad-op"
+  | ["toolvar", hp] =>        -- file name → exported variable, from the regenerated `langs` table
+    match strOfHex hp with
+    | some path =>
+      match Gen.Tool_langs.langs.find? (fun kv => kv.1 == path) with
+      | some kv => s!"M ok {hexOfStr kv.2}\tS -"
+      | none => "M none\tS -"
+    | none => "bad-op"
   | ["nfkd", h] =>
     match strOfHex h with
     | some s => s!"M ok {hexOfStr (Unicode.nfkd s)}\tS - ss={b01 (Unicode.streamSafe s)}"
